@@ -28,6 +28,10 @@ TEXT = {
    text='Unbounded rely/guarantee proof on the real fiber_cond_wait/signal/broadcast (DFCC contracts, interference before every access): wait registers (count+1) while still holding the caller mutex, parks exactly once through the deferred-unlock park, returns with the mutex re-acquired; signal under the internal mutex claims exactly one registered waiter and issues exactly one wake(1) or leaves the count as found (decrement/undo pair); broadcast takes all registered waiters atomically and issues exactly one wake(k); lemma layer: actions inductive, inside rely, signal releases one iff one is registered, broadcast releases all, nobody released without a claim.',
    note='fiber_mutex_lock/unlock by the C03 contracts; park-and-unlock and wake by contract (trusted here, enforced under C01: the mutex is released only after enqueue + context save); SC; capacity 2^30.',
    technique='CBMC function contracts (DFCC) on woven real code, rely/guarantee ghost counters, SAT lemmas', ref='5 C05'),
+ 'C17': dict(
+   text='Unbounded rely/guarantee proof on the real work_queue_push/work_queue_get_work (DFCC contracts, the worker retry loop closed by a loop contract, interference before every access incl. the split non-atomic out_count update): in_count = out_count + uncounted + retiring + queued + pending; push told START_WORKING exactly when its increment moved in_count 0 -> 1; get_work hands out exactly one popped item or reports EMPTY exactly when its atomic subtract drained in_count to 0 (then nothing announced is left unhanded); lemma layer: actions inductive, one worker at a time, EMPTY only when all announced items were handed out, never an item queued without an active worker.',
+   note='mpsc_fifo_push/trypop by the C15 contracts; single consumer = the elected worker; SC; counters below 2^58.',
+   technique='CBMC function+loop contracts (DFCC) on woven real code, rely/guarantee ghost counters, SAT lemmas', ref='5 C17'),
 }
 NOT_YET = 'check not built yet at this commit (DESIGN.md section 5 describes the planned contracts)'
 checks, na = [], []
